@@ -4,6 +4,7 @@ import (
 	"go/ast"
 	"go/parser"
 	"go/token"
+	"os"
 	"strconv"
 )
 
@@ -48,8 +49,12 @@ func corpus(path string) [][]byte {
 
 // Corpora lists the crasher corpora by decoder.
 func Corpora() map[string][][]byte {
+	repo := os.Getenv("VERIF_REPO")
+	if repo == "" {
+		repo = "/repo"
+	}
 	return map[string][][]byte{
-		"bam":  corpus("/repo/bam/bam_test.go"),
-		"bgzf": corpus("/repo/bgzf/bgzf_test.go"),
+		"bam":  corpus(repo + "/bam/bam_test.go"),
+		"bgzf": corpus(repo + "/bgzf/bgzf_test.go"),
 	}
 }
